@@ -15,7 +15,7 @@ func c12Profiles(tier string) []Profile {
 		Mon: harness.Monitors{Durable: true},
 		Letters: func(w *harness.World) []Letter {
 			var ls []Letter
-			for _, n := range []string{"x", "y"} {
+			for _, n := range []string{"x", yName} {
 				n := n
 				mc := w.M.Cur.Colls[n]
 				// a comparator that changes the order may only be installed while
@@ -23,22 +23,22 @@ func c12Profiles(tier string) []Profile {
 				small := mc == nil || len(mc.Items) <= 1
 				isRev := mc != nil && mc.Cmp == "rev"
 				if small || !isRev {
-					ls = append(ls, Letter{fmt.Sprintf("SetColl(%s,nil)", n), func(w *harness.World) { w.SetCollection(n, "nil") }})
+					ls = append(ls, Letter{fmt.Sprintf("SetColl(%.1s,nil)", n), func(w *harness.World) { w.SetCollection(n, "nil") }})
 				}
 				if n == "x" {
 					if small || !isRev {
-						ls = append(ls, Letter{fmt.Sprintf("SetColl(%s,wrap)", n), func(w *harness.World) { w.SetCollection(n, "wrap") }})
+						ls = append(ls, Letter{fmt.Sprintf("SetColl(%.1s,wrap)", n), func(w *harness.World) { w.SetCollection(n, "wrap") }})
 					}
 					if small || isRev {
-						ls = append(ls, Letter{fmt.Sprintf("SetColl(%s,rev)", n), func(w *harness.World) { w.SetCollection(n, "rev") }})
+						ls = append(ls, Letter{fmt.Sprintf("SetColl(%.1s,rev)", n), func(w *harness.World) { w.SetCollection(n, "rev") }})
 					}
 				}
-				ls = append(ls, Letter{fmt.Sprintf("RemoveColl(%s)", n), func(w *harness.World) { w.RemoveCollection(n) }})
+				ls = append(ls, Letter{fmt.Sprintf("RemoveColl(%.1s)", n), func(w *harness.World) { w.RemoveCollection(n) }})
 				if mc != nil {
 					ls = append(ls,
-						Letter{fmt.Sprintf("Set(%s.a,1)", n), func(w *harness.World) { w.SetItem(n, kA, 1, bs("v"+n)) }},
-						Letter{fmt.Sprintf("Set(%s.b,2)", n), func(w *harness.World) { w.SetItem(n, kB, 2, bs("w")) }},
-						Letter{fmt.Sprintf("Del(%s.a)", n), func(w *harness.World) { w.Delete(n, kA) }})
+						Letter{fmt.Sprintf("Set(%.1s.a,1)", n), func(w *harness.World) { w.SetItem(n, kA, 1, bs("v"+n[:1])) }},
+						Letter{fmt.Sprintf("Set(%.1s.b,2)", n), func(w *harness.World) { w.SetItem(n, kB, 2, bs("w")) }},
+						Letter{fmt.Sprintf("Del(%.1s.a)", n), func(w *harness.World) { w.Delete(n, kA) }})
 				}
 			}
 			ls = append(ls, Letter{"Flush", func(w *harness.World) { w.Flush() }},
